@@ -111,8 +111,10 @@ class Ctx:
         if sim:
             cmd += ["-simulate", "num=%d" % sim[0], "-depth", str(sim[1]), "-seed", str(self.seed)]
             self.exhaustive = False
-        elif depth:
-            cmd += ["-depth", str(depth)]
+        else:
+            cmd += ["-seed", str(self.seed)]          # Randomization!RandomSubset in Init (long-series configurations)
+            if depth:
+                cmd += ["-depth", str(depth)]
         cmd += [module + ".tla"]
         rc, out, dt = sh(cmd, cwd=SPEC, env=env, timeout=timeout)
         log = os.path.join(self.work, "tlc-%s.log" % name)
@@ -198,6 +200,12 @@ class Ctx:
         if rc == 3 and "ESCAPED-PANIC" in out:
             self.escaped(name, cmd, out, timeout)
             return {"cases": 0}
+        if rc < 0 and rc != -9:
+            # killed by a signal (SIGSEGV, SIGABRT, SIGBUS ...): the library corrupted memory or
+            # aborted under the harness; that is data about the code under test, not a tool failure
+            self.escaped(name, cmd, "ESCAPED-PANIC\t/repo/(signal %d)\tthe process was killed by signal %d" % (-rc, -rc), timeout,
+                         crash=True)
+            return {"cases": 0}
         if rc != 0:
             raise ToolError("harness %s failed rc=%d: %s" % (" ".join(cmd), rc, out[-2000:]))
         stats = None
@@ -223,7 +231,7 @@ class Ctx:
         self.absorb(mism, stats.get("mismatches", len(mism)), cmd)
         return stats
 
-    def escaped(self, name, cmd, out, timeout):
+    def escaped(self, name, cmd, out, timeout, crash=False):
         """A panic of the library escaped the harness's catch: it is data, not a tool failure.
         Locate the case by bisection of the input file (cases are independent)."""
         m = re.search(r"ESCAPED-PANIC\t([^\t\n]*)\t([^\n]*)", out)
@@ -243,7 +251,8 @@ class Ctx:
             def fails(n):
                 with open(tmp_in, "w") as f:
                     f.writelines(lines[:n])
-                return sh(c2, timeout=timeout)[0] == 3
+                r = sh(c2, timeout=timeout)[0]
+                return r == 3 or (crash and r < 0)
             lo, hi = 0, len(lines)          # fails(hi) holds, fails(lo) does not
             while hi - lo > 1:
                 mid = (lo + hi) // 2
@@ -251,11 +260,19 @@ class Ctx:
                     hi = mid
                 else:
                     lo = mid
+            # a corrupted heap may only kill the process some cases later: prefer the single case if it
+            # reproduces alone, otherwise keep the shortest failing prefix's last case
             case = json.loads(lines[hi - 1])
         rel = loc[len("/repo/"):]
-        d = {"t": "mismatch", "prop": self.pid, "op": "escaped-panic", "site": "escaped-panic|" + rel,
-             "key": "escaped-panic|%s|%s" % (rel, json.dumps(case, sort_keys=True)[:300]), "cell": "-",
-             "detail": "the library panicked at %s outside every guarded call: %s" % (rel, msg), "case": case}
+        cj = json.dumps(case, sort_keys=True)[:300]
+        if crash:
+            d = {"t": "mismatch", "prop": self.pid, "op": "crash", "site": "crash|" + rel, "key": "crash|%s|%s" % (rel, cj),
+                 "cell": "-", "detail": "%s while this case was replayed (memory corrupted or an abort inside the library)" % msg,
+                 "case": case}
+        else:
+            d = {"t": "mismatch", "prop": self.pid, "op": "escaped-panic", "site": "escaped-panic|" + rel,
+                 "key": "escaped-panic|%s|%s" % (rel, cj), "cell": "-",
+                 "detail": "the library panicked at %s outside every guarded call: %s" % (rel, msg), "case": case}
         self.cov["harness_runs"].append({"name": name, "escaped_panic": rel})
         self.absorb([d], 1, cmd)
 
@@ -425,6 +442,10 @@ def replay_file(path):
         rc, out, _ = sh(cmd)
         if rc == 3 and "ESCAPED-PANIC" in out:
             print("MISMATCH " + out.strip().splitlines()[-1])
+            print("replay: 1 mismatch(es)")
+            return 1
+        if rc < 0 and rc != -9:
+            print("MISMATCH the process was killed by signal %d" % -rc)
             print("replay: 1 mismatch(es)")
             return 1
         if rc != 0:
